@@ -106,7 +106,7 @@ def check(ctx):
     base = find("annotations = toolz.merge(*args)", fuse, nested=False)
     ctx.ob("TAB.annotations.base", fuse, "other keys: plain merge of identical annotations", bool(base))
     rets = returns(fuse)
-    ctx.ob("TAB.annotations.return", fuse, "returns the fused annotations", len(rets) == 1 and unparse(rets[0].value) == "annotations")
+    ctx.ob("TAB.annotations.return", fuse, "returns the fused annotations", len(rets) == 1 and eqv(rets[0].value, "annotations"))
     # call sites use the gate before fusing
     rb = bw.func("rewrite_blockwise")
     fc = [c for c in calls(rb, "_fuse_annotations")]
@@ -139,7 +139,7 @@ def check(ctx):
     ctx.ob("SIB.blockwise-coords.mapping-args", c2[0], "_make_blockwise_graph: _get_coord_mapping(dims, out_indices, numblocks, argpairs, concatenate)", a2 == want2, "" if a2 == want2 else str(a2))
     for f, c in ((cd, c1[0]), (mk, c2[0])):
         st = enclosing_stmt(c)
-        ok = isinstance(st, ast.Assign) and unparse(st.targets[0]) == "(coord_maps, concat_axes, dummies)"
+        ok = isinstance(st, ast.Assign) and eqv(st.targets[0], "(coord_maps, concat_axes, dummies)")
         ctx.ob("SIB.blockwise-coords.mapping-unpack", c, "coord_maps, concat_axes, dummies = _get_coord_mapping(...)", ok)
     ap = find("argpairs = list(toolz.partition(2, arrind_pairs))", mk, nested=False)
     ctx.ob("SIB.blockwise-coords.argpairs", mk, "argpairs = list(toolz.partition(2, arrind_pairs))", bool(ap))
@@ -155,7 +155,7 @@ def check(ctx):
                 d["zip"] = [unparse(a).replace("self.", "") for a in l.iter.args][:3]
                 d["zip-target"] = unparse(l.target)
         for l in walk_no_nested(f):
-            if isinstance(l, ast.For) and unparse(l.target) == "out_coords" and unparse(l.iter) == "output_blocks":
+            if isinstance(l, ast.For) and eqv(l.target, "out_coords") and eqv(l.iter, "output_blocks"):
                 d["outer"] = True
         return d
 
@@ -169,7 +169,7 @@ def check(ctx):
     ctx.ob("SIB.blockwise-coords.zip", f"{BW}::Blockwise._cull_dependencies", "both iterate zip(coord_maps, concat_axes, <arg/index pairs>)", bool(z1) and z1 == z2, f"{z1} vs {z2}")
     ctx.ob("SIB.blockwise-coords.outer", f"{BW}::Blockwise._cull_dependencies", "both iterate `for out_coords in output_blocks`", bool(e1.get("outer") and e2.get("outer")))
     # key constructors
-    k1 = [unparse(n.targets[0].slice) for n in walk_no_nested(cd) if isinstance(n, ast.Assign) and isinstance(n.targets[0], ast.Subscript) and unparse(n.targets[0].value) == "key_deps"]
+    k1 = [unparse(n.targets[0].slice) for n in walk_no_nested(cd) if isinstance(n, ast.Assign) and isinstance(n.targets[0], ast.Subscript) and eqv(n.targets[0].value, "key_deps")]
     k2 = [unparse(b["M_v"]) for n, b in find("new_key = M_v", mk, nested=False)]
     ok = k1 == ["(self.output,) + out_coords"] and k2 == ["(output,) + out_coords"]
     ctx.ob("SIB.blockwise-coords.output-key", f"{BW}::Blockwise._cull_dependencies", "output key = (output,) + out_coords on both sides", ok, f"{k1} vs {k2}")
@@ -186,9 +186,9 @@ def check(ctx):
     add = [n for n, b in find("deps.add(tups)", cd, nested=False)] + [n for n, b in find("deps.update(flatten(tups))", cd, nested=False)]
     ctx.ob("SIB.blockwise-coords.collected", cd, "both dependency forms are added to the block's dependency set", len(add) == 2)
     # case split
-    f1 = [n for n in ast.walk(cd) if isinstance(n, ast.If) and unparse(n.test) == "ind is not None and arg not in self.io_deps"]
-    f2a = [n for n in ast.walk(mk) if isinstance(n, ast.If) and unparse(n.test) == "ind is None"]
-    f2b = [n for n in ast.walk(mk) if isinstance(n, ast.If) and unparse(n.test) == "arg in io_deps"]
+    f1 = [n for n in ast.walk(cd) if isinstance(n, ast.If) and eqv(n.test, "ind is not None and arg not in self.io_deps")]
+    f2a = [n for n in ast.walk(mk) if isinstance(n, ast.If) and eqv(n.test, "ind is None")]
+    f2b = [n for n in ast.walk(mk) if isinstance(n, ast.If) and eqv(n.test, "arg in io_deps")]
     ok = bool(f1 and f2a and f2b) and any(isinstance(x, ast.Continue) for x in f2a[0].body)
     ctx.ob("SIB.blockwise-coords.cases", cd, "array arguments only: literals (ind is None) and io_deps are excluded on both sides", ok)
     cdp = find("const_deps.add(arg.key)", cd, nested=False)
@@ -222,14 +222,14 @@ def check(ctx):
     loops = [l for l in walk_no_nested(hc) if isinstance(l, ast.For) and "_toposort_layers" in unparse(l.iter)]
     ok = bool(loops) and Pat("reversed(self._toposort_layers())").match(loops[0].iter) is not None
     ctx.ob("REACH.hlg-cull.order", hc, "layers are visited in reverse topological order", ok, "" if ok else "a layer may be culled before the layers that depend on it contributed their keys")
-    lc = [c for c in calls(hc, "cull") if isinstance(c.func, ast.Attribute) and unparse(c.func.value) == "layer"]
-    ok = len(lc) == 1 and unparse(lc[0].args[0]) == "keys_set"
+    lc = [c for c in calls(hc, "cull") if isinstance(c.func, ast.Attribute) and eqv(c.func.value, "layer")]
+    ok = len(lc) == 1 and eqv(lc[0].args[0], "keys_set")
     ctx.ob("REACH.hlg-cull.layer-call", hc, "layer.cull(keys_set, all_ext_keys)", ok)
     grow = find("keys_set |= d", hc, nested=False)
     ok = False
     if grow:
         l2 = [l for l in enclosing_loops(grow[0][0]) if isinstance(l, ast.For)]
-        ok = bool(l2) and unparse(l2[0].iter) == "culled_deps.items()" and unparse(l2[0].target) == "(k, d)"
+        ok = bool(l2) and eqv(l2[0].iter, "culled_deps.items()") and eqv(l2[0].target, "(k, d)")
     ctx.ob("REACH.hlg-cull.grow", hc, "for k, d in culled_deps.items(): keys_set |= d", ok, "" if ok else "dependencies of culled layers are not propagated to earlier layers")
     keep = find("ret_layers[new_layer_name] = layer", hc, nested=False)
     ctx.ob("REACH.hlg-cull.keep", hc, "every layer with remaining dependencies is kept", bool(keep))
@@ -243,7 +243,7 @@ def check(ctx):
         facts = inline_facts(lcu, wa[0][0])
         ok = has_fact(facts, "d in self", True) is not None and has_fact(facts, "d in seen", False) is not None
         l3 = [l for l in enclosing_loops(wa[0][0]) if isinstance(l, ast.For)]
-        ok = ok and bool(l3) and unparse(l3[0].iter) == "ret_deps[k]"
+        ok = ok and bool(l3) and eqv(l3[0].iter, "ret_deps[k]")
     ctx.ob("REACH.layer-cull.legacy", lcu, "work starts from keys; out[k]=self[k]; in-layer dependencies are followed", ok)
     ok = bool(find("out = cull(dict(self), keys)", lcu, nested=False)) and any(isinstance(r.value, ast.Tuple) and "{k: set(v.dependencies) for k, v in out.items()}" in unparse(r.value) for r in returns(lcu))
     ctx.ob("REACH.layer-cull.spec", lcu, "task-spec layers: cull(dict(self), keys) and dependencies of the kept nodes", ok)
@@ -254,7 +254,7 @@ def check(ctx):
             ctx.note("HighLevelGraph.cull intersects old-name dependency sets with new-name layer keys: layer dependencies of the culled graph are empty (values unaffected; outside the letter of C10)")
     # ---------------- fused sub-tasks are named after the dependency and its index ORDER
     ud = bw.func("_unique_dep") if "bw" in dir() else ctx.model.module("dask/blockwise.py").func("_unique_dep")
-    ok = any(unparse(r.value) == "dep + '_' + '_'.join((str(i) for i in list(ind)))" for r in returns(ud))
+    ok = any(eqv(r.value, "dep + '_' + '_'.join((str(i) for i in list(ind)))") for r in returns(ud))
     ctx.ob("INJ.unique-dep", ud, "_unique_dep(dep, ind) = dep + '_' + the indices joined IN ORDER", ok, "" if ok else "an order-destroying operation (sorted/set) is applied: the same input read as 'ij' and as 'ji' collapses onto one key when layers are fused")
     # ---------------- Layer.cull shortcut: when nothing is culled the dependencies of EVERY key of the layer are reported
     lcu2 = ctx.model.klass("dask/highlevelgraph.py", "Layer").own_methods["cull"]
